@@ -74,3 +74,6 @@ hs!(h_arr_u16x2, sc_arr_u16x2, 8, 12);
 h!(h_arr_u8x4, sc_arr_u8x4, 6, 12);
 hs!(h_vec_u16, sc_vec_u16, 5, 12);
 
+hs!(h_seq_writers, sc_seq_writers, 4, 12);
+hs!(h_byte_writers, sc_byte_writers, 3, 12);
+hs!(h_empty_writers, sc_empty_writers, 1, 12);
